@@ -1,19 +1,22 @@
 (* Proof obligations over facts regenerated from /repo on every check (Generated/SourceFacts.v,
-   written by harness/cmd/facts).  Topic: locks_register.  When an edit of the sources changes a fact, the
-   lemma below stops compiling; the checks of the properties that depend on this topic then report
+   written by harness/cmd/facts).  Topic: locks_register.  The facts are semantic summaries (orders, literal
+   sets, capacity classes, parent classes of contexts, lock events per path), so a behaviour-
+   preserving rewrite regenerates the same facts; when an edit changes what the theorems rest on,
+   the lemma below stops compiling, the checks of the properties that depend on this topic report
    the broken obligation by name and search for a failing input. *)
 From Coq Require Import List String ZArith Bool.
 Import ListNotations.
 Require Import Verif.Common.LockEv Verif.Generated.SourceFacts.
+
 Open Scope string_scope.
 
-(* every method of this package that touches the shared object follows the lock discipline
-   (Common/LockEv.disciplined: reads under a read or write lock, writes under the write lock,
-   every lock released, at most one self-locking call outside a critical section), all of them
-   on the one lock "mutex", and the
-   methods the model knows are all there *)
+(* every path of every method of this package that touches the shared object follows the lock
+   discipline (Common/LockEv.disciplined: reads under a read or write lock, writes under the write
+   lock, every lock released, at most one self-locking call outside a critical section), all on the
+   one lock "mutex"; every listed method touches the object on some path (guards against an extractor
+   that finds nothing); the methods the model knows are all there *)
 Lemma locks_register_ok :
-  all_disciplined lock_events_register = true /\ all_touch lock_events_register = true /\
-  all_one_lock "mutex" lock_events_register = true /\
-  has_methods ["register.Namespaced.AddNamespace"; "register.Namespaced.Get"; "register.Namespaced.Register"; "register.Untyped.Clone"; "register.Untyped.Get"; "register.Untyped.Register"] lock_events_register = true.
+  all_paths_disciplined lock_paths_register = true /\ all_paths_touch lock_paths_register = true /\
+  all_paths_one_lock "mutex" lock_paths_register = true /\ all_paths_calls_atomic lock_paths_register = true /\
+  has_path_methods ["register.Namespaced.AddNamespace"; "register.Namespaced.Get"; "register.Namespaced.Register"; "register.Untyped.Clone"; "register.Untyped.Get"; "register.Untyped.Register"] lock_paths_register = true.
 Proof. repeat split; vm_compute; reflexivity. Qed.
